@@ -117,7 +117,8 @@ def check_formula(pc, goal, timeout_ms, want_model=True, tier="quick"):
     if isinstance(goal, bool) and goal:
         return "proved", None, "trivial", 0.0
     s = z3.Solver()
-    s.set("timeout", timeout_ms)
+    first = min(timeout_ms, 5000)
+    s.set("timeout", first)
     s.add(*pc)
     s.add(*ops.axioms_for(list(pc) + [goal]))
     s.add(z3.Not(goal) if not isinstance(goal, bool) else z3.BoolVal(not goal))
@@ -127,10 +128,20 @@ def check_formula(pc, goal, timeout_ms, want_model=True, tier="quick"):
         return "proved", None, "z3", dt
     if r == z3.sat:
         return "refuted", s.model(), "z3", dt
-    # second opinion: cvc5 on the same query text
-    st2, dt2 = run_cvc5(s.to_smt2(), timeout_ms)
+    # second opinion: cvc5 on the same query text (quantified obligations z3 gives up on are often immediate for it)
+    st2, dt2 = run_cvc5(s.to_smt2(), min(timeout_ms, 10000))
     if st2 == "unsat":
         return "proved", None, "cvc5", dt + dt2
+    if timeout_ms > first:
+        # z3 again with the full budget
+        s.set("timeout", timeout_ms)
+        t1 = time.time()
+        r = s.check()
+        dt += time.time() - t1
+        if r == z3.unsat:
+            return "proved", None, "z3", dt + dt2
+        if r == z3.sat:
+            return "refuted", s.model(), "z3", dt + dt2
     if tier == "quick":
         return "unknown", None, "z3+cvc5", dt + dt2
     # different z3 configuration (fresh solver, different seed / tactics)
@@ -439,7 +450,18 @@ def verify_contract(con, contracts, tier="quick", externals=None):
     for ob in E.obligations:
         idx = counts.get(ob.name, 0)
         counts[ob.name] = idx + 1
-        status, model, backend, dt = check_formula(ob.pc, ob.goal, timeout, tier=tier)
+        status = None
+        dt0 = 0.0
+        goal_qf = isinstance(ob.goal, bool) or not ops.has_quantifier(ob.goal)
+        if goal_qf and ob.kind in ("ghost", "safe", "call-pre", "unwind") and any(ops.has_quantifier(p) for p in ob.pc):
+            # first from the quantifier-free part of the path condition alone (fewer hypotheses: a proof stays a proof;
+            # anything else is decided from the full path condition below)
+            st1, _m, be1, dt0 = check_formula([p for p in ob.pc if not ops.has_quantifier(p)], ob.goal, min(timeout, int(os.environ.get("VERIF_QF_MS", "20000"))), want_model=False, tier="quick")
+            if st1 == "proved":
+                status, model, backend, dt = st1, None, be1, dt0
+        if status is None:
+            status, model, backend, dt = check_formula(ob.pc, ob.goal, timeout, tier=tier)
+            dt += dt0
         d = {"name": ob.name, "instance": idx, "kind": ob.kind, "line": ob.lineno, "text": ob.text,
              "status": status, "backend": backend, "seconds": round(dt, 4)}
         res.solver_seconds += dt
